@@ -19,7 +19,7 @@ def jobs(tier):
     import ctparse.ctparse  # noqa
     CC = sys.modules["ctparse.ctparse"]
     out.append(Job("C20.COMPOSE-API", "vq.harness.h_api2", "ob_compose", timeout=3600, path_timeout=300,
-                   bounds="12 day expressions (absolute, relative, weekday, day of month, day+month; EN/DE) x 8 clock notations x {'', 'at', 'um'} x both orders x 3 reference times, max_stack_depth=0: "
+                   bounds="15 day expressions (incl. month-end days) (absolute, relative, weekday, day of month, day+month; EN/DE) x 8 clock notations x {'', 'at', 'um'} x both orders x 3 reference times, max_stack_depth=0: "
                           "the day the date part alone resolves to, at the clock part's hour and minute",
                    functions=[fn_id(CC.ctparse)], stubs=["parser untraced; pool indices symbolic (solver covers every combination)"], site="ctparse"))
     return out
